@@ -622,8 +622,14 @@ theorem writeOne_invalid (s : St) (d : Bytes) (hv : ¬ ValidRec s.cfg d) : write
 
 /-! ### the consumer took the pending record -/
 
-theorem moveForward_rep {s : St} {pre : Bytes} {recs : Nat → List Bytes} (h : Rep s pre recs) (hb : PendB s recs) :
-    ∃ pre' recs', Rep (moveForward s) pre' recs' ∧ absQ s recs = s.pending :: absQ (moveForward s) recs' := by
+/-- `moveForward_rep` with the frame facts the hard-kill analysis needs: within one file only the read
+position and `depth` move (the metadata file is not touched, no sync is requested); a change of file
+removes the consumed file and requests a sync -/
+theorem moveForward_rep_frame {s : St} {pre : Bytes} {recs : Nat → List Bytes} (h : Rep s pre recs) (hb : PendB s recs) :
+    ∃ pre' recs', Rep (moveForward s) pre' recs' ∧ absQ s recs = s.pending :: absQ (moveForward s) recs' ∧
+      (s.nrf = s.rf → moveForward s = { s with rf := s.nrf, rp := s.nrp, depth := s.depth - 1 } ∧
+        pre' = pre ++ dqRecord s.pending ∧ s.nrp = s.rp + (4 + s.pending.length) ∧ ValidRec s.cfg s.pending) ∧
+      (s.nrf ≠ s.rf → (moveForward s).needSync = true) := by
   obtain ⟨d, rest, b1, b2, b3⟩ := hb
   have hle := h.le
   have hcont : s.fs.content s.rf = pre ++ (dqRecord d ++ enc rest) := by rw [h.crf, b1, enc_cons]
@@ -686,7 +692,7 @@ theorem moveForward_rep {s : St} {pre : Bytes} {recs : Nat → List Bytes} (h : 
         show s.mbr = (s.fs.content s.nrf).length
         rw [c1] at hlt ⊢
         exact h.mbr ho hlt
-    refine ⟨pre ++ dqRecord d, (fun i => if i = s.rf then rest else recs i), ?_, ?_⟩
+    refine ⟨pre ++ dqRecord d, (fun i => if i = s.rf then rest else recs i), ?_, ?_, ?_, ?_⟩
     · unfold moveForward
       rw [if_neg (by rw [c1]; simp), checkTail_id hrep]
       exact hrep
@@ -695,6 +701,12 @@ theorem moveForward_rep {s : St} {pre : Bytes} {recs : Nat → List Bytes} (h : 
       congr 1
       show _ = qFrom (fun i => if i = s.rf then rest else recs i) s.nrf (s.wf - s.nrf + 1)
       rw [c1, hq]
+    · intro _
+      refine ⟨?_, by rw [b2], by rw [c2, b2], ?_⟩
+      · unfold moveForward
+        rw [if_neg (by rw [c1]; simp), checkTail_id hrep]
+      · rw [b2]; exact h.vrec s.rf d (by rw [b1]; simp)
+    · intro hne; exact absurd c1 hne
   | inr c =>
     obtain ⟨c0, c1, c2, c3, c4⟩ := c
     have hq : qFrom recs (s.rf + 1) (s.wf - (s.rf + 1) + 1) = qFrom recs (s.rf + 1) (s.wf - s.rf) := by
@@ -746,7 +758,7 @@ theorem moveForward_rep {s : St} {pre : Bytes} {recs : Nat → List Bytes} (h : 
         omega
       · intro ho; exact absurd ho (by show ¬ s.rOpen = true; rw [c4]; simp)
       · intro ho; exact absurd ho (by show ¬ s.rOpen = true; rw [c4]; simp)
-    refine ⟨[], recs, ?_, ?_⟩
+    refine ⟨[], recs, ?_, ?_, ?_, ?_⟩
     · unfold moveForward
       rw [if_pos (by rw [c2]; omega), checkTail_id hrep]
       exact hrep
@@ -756,6 +768,15 @@ theorem moveForward_rep {s : St} {pre : Bytes} {recs : Nat → List Bytes} (h : 
       unfold absQ
       show _ = qFrom recs s.nrf (s.wf - s.nrf + 1)
       rw [c2, hq, List.nil_append]
+    · intro he; rw [c2] at he; omega
+    · intro _
+      unfold moveForward
+      rw [if_pos (by rw [c2]; omega), checkTail_id hrep]
+
+theorem moveForward_rep {s : St} {pre : Bytes} {recs : Nat → List Bytes} (h : Rep s pre recs) (hb : PendB s recs) :
+    ∃ pre' recs', Rep (moveForward s) pre' recs' ∧ absQ s recs = s.pending :: absQ (moveForward s) recs' := by
+  obtain ⟨pre', recs', a, b, _⟩ := moveForward_rep_frame h hb
+  exact ⟨pre', recs', a, b⟩
 
 /-! ### Empty, Close + New -/
 
